@@ -257,6 +257,14 @@ def e_on(i, it):
         specs = [f"on ref{i}"]
         if f == "obj_mod":
             specs.insert(0, f"at {tup(it['p'], rnd)}")
+    elif f in ("vol_dir_region", "vol_dir_obj"):
+        d = [0.0, 0.0, 0.0]
+        d[it["ax"]] = 1.0
+        rd = f", onDirection={tup(d)}" if f == "vol_dir_region" else ""
+        out.append(f"reg{i} = BoxRegion(dimensions={tup(it['bd'])}, position={tup(it['bc'])}{rd})")
+        specs = [f"at {tup(it['p'], rnd)}", f"on reg{i}"]
+        if f == "vol_dir_obj":
+            specs.append(f"with onDirection {tup(d)}")
     else:
         raise ValueError(f)
     out.append(new_obj(specs + own, f"t{i}"))
@@ -687,6 +695,17 @@ def j_on(i, it, env, out, src):
         else:
             j.rot("own-orientation", Robj, G.pose_R({"par": it["np"]["par"],
                                                     "loc": it["np"]["loc"]}))
+        nt = True
+    elif f in ("vol_dir_region", "vol_dir_obj"):
+        # "we find the closest point in the region along onDirection (or its negation)"; the
+        # direction comes from the object, or else from the region ("a region can either specify
+        # a default value to be used, or ...")
+        p = np.array(it["p"], float)
+        c, d, ax = np.array(it["bc"], float), np.array(it["bd"], float), it["ax"]
+        hit = p.copy()
+        hit[ax] = c[ax] + (d[ax] / 2 if p[ax] > c[ax] else -d[ax] / 2)
+        j.val("base-distance-from-projection", float(np.linalg.norm(base - hit)), ct / 2,
+              1e-7 * sc)
         nt = True
     else:
         rc = np.array(it["rp"]["pos"], float)
@@ -1135,7 +1154,8 @@ def item(draw):
         return it
     if k == "on":
         # (modifying `on` with a PolygonalRegion raises a documented NotImplementedError: not generated)
-        f = draw(st.sampled_from(["vec", "region", "obj", "obj_mod", "obj_mod"]))
+        f = draw(st.sampled_from(["vec", "region", "obj", "obj_mod", "obj_mod", "vol_dir_region",
+                                  "vol_dir_obj"]))
         it = {"k": "on", "form": f, "rnd": rnd, "nd": draw(dims3),
               "ct": draw(_grid(0.02, 0.6, 1000)), "bo": None, "of": None}
         if draw(st.booleans()):
@@ -1147,6 +1167,15 @@ def item(draw):
                 it["bo"] = draw(vec3)
         if f == "vec":
             it["p"] = draw(position())
+        elif f in ("vol_dir_region", "vol_dir_obj"):
+            it["bc"] = draw(position())
+            it["bd"] = [draw(_grid(2.0, 12.0)) for _ in range(3)]
+            it["ax"] = draw(st.integers(0, 1))
+            it["bo"] = None
+            p = [it["bc"][k] + draw(_grid(-0.4, 0.4)) * it["bd"][k] for k in range(3)]
+            p[it["ax"]] = it["bc"][it["ax"]] + draw(SIGN) * (it["bd"][it["ax"]] / 2
+                                                          + draw(_grid(0.5, 20.0)))
+            it["p"] = [float(x) for x in p]
         elif f in ("region", "region_mod"):
             w, l = draw(_grid(2.0, 20.0)), draw(_grid(2.0, 20.0))
             it["rect"] = [draw(coord()), draw(coord()), draw(angle()), w, l, draw(coord())]
@@ -1229,7 +1258,7 @@ def cases(draw, nitems=20):
 
 
 def plan(tier, seed, jobs):
-    n = 60 if tier == "quick" else 1500
+    n = 60 if tier == "quick" else 700
     return [{"seed": seed * 1000 + k, "n": n} for k in range(jobs)]
 
 
